@@ -371,12 +371,16 @@ def _jsonable(p):
 # concrete replay of a recorded history on the real code
 
 
-def replay_history(tree, hist, arrays=None):
+def replay_history(tree, hist, arrays=None, observe=None):
     """Re-execute a recorded history with scripted RNGs.  Returns the final
-    tree (raises whatever the real code raises)."""
+    tree (raises whatever the real code raises).
+    observe: what the driver itself did to every state it reached (e.g. contract a copy): repeated after every
+    operation, so that effects of those observations on shared state are replayed too"""
     import cotengra.utils as U
 
     env = {"arrays": arrays}
+    if observe is not None:
+        observe(tree)
     for h in hist:
         name, p = h["op"], dict(h["params"])
         scripts = h.get("scripts", {})
@@ -392,6 +396,8 @@ def replay_history(tree, hist, arrays=None):
                 tree = res
         finally:
             U.random = saved
+        if observe is not None:
+            observe(tree)
     return tree
 
 
